@@ -906,6 +906,18 @@ func runC02(a *Args) error {
 			r.slash(op, c02Dec(1, 3), c02Dec(2, 3))
 		case 6:
 			r.slash(u.ops[rng.Intn(2)], c02Dec(9999, 10000), c02Dec(99999, 100000))
+		case 7:
+			// share total around 2^220: the 315-bit LegacyDec guard inside the share conversions is within reach of
+			// 10^30-sized requests (the keeper call panics; outcome "panic", state unchanged)
+			huge := kernBig("1000000000000000000000000000000")
+			r.deposit(A, usdt, huge)
+			r.delegate(A, usdt, op, huge)
+			r.slash(op, c02One.Sub(sdkmath.LegacySmallestDec()), c02One.Sub(sdkmath.LegacySmallestDec()))
+			r.deposit(B, usdt, kernAdd(huge, 2))
+			r.delegate(B, usdt, op, kernAdd(huge, int64(rng.Intn(3))))
+			r.undelegate(B, usdt, op, kernAdd(huge, int64(rng.Intn(3))))
+			r.undelegate(A, usdt, op, kernAdd(huge, -int64(rng.Intn(2))))
+			r.nstBalance(B, usdt, new(big.Int).Neg(kernAdd(huge, 7)))
 		}
 		n := 6 + rng.Intn(10)
 		if a.Tier == "thorough" && rng.Intn(4) == 0 {
